@@ -82,6 +82,9 @@ THEOREMS = [
     "Verif.C11.robust_loss_zero_iff",
     "Verif.C11.robust_loss_recovery_unique",
     "Verif.C11.scaled_model_start",
+    "Verif.C11.hydro_spectrum_form",
+    "Verif.C11.psdOr_hydro_noFilter",
+    "Verif.C11.rational_spectrum_recovery_unique",
 ]
 RULE = (
     "corpus (8 representative + the open finding F-C11-1) + exhaustive option matrix (hydro x axial x distance{None, at the "
@@ -1493,6 +1496,29 @@ def shrink(case):
             yield c
 
 
+def hydro_identifiability_det(c):
+    """the hypothesis of rational_spectrum_recovery_unique on the spectrum of a hydrodynamic fit case: determinant of the
+    rows (B^2 + C, B, 1) at the first, middle and last frequency, relative to the sum of the absolute values of its terms"""
+    o = c["o"]
+    eta = o["visc"]
+    if eta is None:
+        return None
+    gamma0 = 3 * math.pi * eta * o["d"] * 1e-6
+    r = o["d"] * 1e-6 / 2
+    l = None if o["dist"] is None else o["dist"] * 1e-6
+    rho = 997.0 if o["rho_s"] is None else o["rho_s"]
+    fm = gamma0 / (2 * math.pi * (4 / 3 * math.pi * r**3 * o["rho_b"]))
+    f = fit_grid(c)
+    rows = []
+    for x in (f[0], f[len(f) // 2], f[-1]):
+        z = o_complex_drag(float(x), gamma0, rho, r, l)
+        B = x * (z.imag - x / fm)
+        rows.append((B * B + (x * z.real) ** 2, B))
+    (w1, b1), (w2, b2), (w3, b3) = rows
+    terms = [w1 * b2, -w1 * b3, -b1 * w2, b1 * w3, w2 * b3, -w3 * b2]
+    return abs(sum(terms)) / max(sum(abs(v) for v in terms), 1e-300)
+
+
 def extra_coverage(results):
     cov = {"by_op": {}, "by_branch": {}, "errors": {}, "exploration": {}}
     for r in results:
@@ -1544,6 +1570,9 @@ def extra_coverage(results):
             k: sum(1 for r in results if r["case"]["op"] == "calib" and len(r["impl"]) > 1 and " ".join(x.split("=")[0] for x in r["impl"][1].split(" ")) == k)
             for k in sorted({" ".join(x.split("=")[0] for x in r["impl"][1].split(" ")) for r in results if r["case"]["op"] == "calib" and len(r["impl"]) > 1})
         },
+        "hydro_identifiability_determinant(relative, hypothesis of rational_spectrum_recovery_unique)": (
+            lambda ds: {"cases": len(ds), "min": min(ds) if ds else None, "nonzero": sum(1 for d in ds if d > 1e-9)}
+        )([d for d in (hydro_identifiability_det(r["case"]) for r in fits if r["case"]["o"]["hydro"]) if d is not None]),
         "drive_estimator_ties": len(drv),
         "drive_estimator_scope_cases": sum(1 for r in drv if r["case"].get("scope")),
         "drive_estimator_branches(impl)": dict(sorted(dbr.items())),
